@@ -241,7 +241,7 @@ class Ctx:
         self.known_hits = {}
         self.notes = []
         self.findings = load_findings(pid)
-        self.work = workdir(pid)
+        self.work = workdir(f"{pid}/{tier}-{seed}")
 
     # coverage counters
     def add(self, key, n=1):
